@@ -18,6 +18,14 @@ def classify(m):
     ecore = [x for x in exp if not (isinstance(x, list) and x and x[0] == 'log')]
     gcore = [x for x in got if not (isinstance(x, list) and x and x[0] == 'log')]
     if ecore == gcore:
+        try:
+            el, gl = elog[0][1], glog[0][1]
+            if (ecore[0] == 'exc' and ecore[1] == 'AttributeError' and len(gl) > len(el) and gl[:len(el)] == el):
+                # CPython looks the method up before it evaluates the call arguments; compiled code evaluates the
+                # arguments first, so their side effects happen although the lookup then fails (C20 finding)
+                return 'method-lookup-after-argument-evaluation'
+        except Exception:
+            pass
         return 'sideeffect-log-differs'
     if ecore[0] == 'exc' and gcore[0] == 'exc':
         if ecore[1] != gcore[1]:
